@@ -128,6 +128,14 @@ def ret_assign_blocks(body, pred):
             e = x.call_expr(blk.i, t, x.depth)
             if pred(e):
                 out.append((blk.i, e))
+        # an Err(..)/None built by an inlined helper and handed to the caller's `?` (normalize.thread_try routed this block straight to the
+        # Break edge): it is the value the function returns
+        if t.j.get("try_threaded") == "Break" and t.k == "goto":
+            for s in blk.stmts:
+                if s.k == "assign" and not s.lhs[1] and s.lhs[0] != 0 and s.rv.k == "aggr" and s.rv.j.get("variant") in ("Err", "None"):
+                    e = x.rvalue(s.rv, x.depth)
+                    if pred(e):
+                        out.append((blk.i, e))
     return out
 
 
